@@ -10,7 +10,7 @@ TC = {'INTEGER': '%', 'LONG': '&', 'SINGLE': '!', 'DOUBLE': '#', 'STRING': '$'}
 NUM = ['INTEGER', 'LONG', 'SINGLE', 'DOUBLE']
 
 ALL_FEATURES = {'arrays', 'records', 'subs', 'funcs', 'goto', 'gosub', 'select', 'for', 'while', 'do', 'input', 'data',
-                'const', 'strings', 'floats', 'static', 'shared', 'ifline', 'recursion', 'dynarrays', 'emptyblocks'}
+                'const', 'strings', 'floats', 'static', 'shared', 'ifline', 'recursion', 'dynarrays', 'emptyblocks', 'onerror'}
 
 
 class Scope:
@@ -475,13 +475,26 @@ class ProgGen:
             # DATA may sit anywhere between the top-level statements of the main program
             pos = rng.randint(0, len(chunks))
             chunks.insert(pos, ['DATA ' + ', '.join(self.data_items)])
+        handler = None
+        if 'onerror' in self.f and rng.random() < 0.35:
+            # an error handler is armed somewhere in the main program; nothing is made to fail on purpose here
+            handler = f'eh{rng.randint(1, 9)}'
+            chunks.insert(rng.randint(0, len(chunks)), [f'ON ERROR GOTO {handler}'])
+            if rng.random() < 0.3:
+                chunks.insert(rng.randint(0, len(chunks)), [rng.choice(['ON ERROR GOTO 0', 'ON ERROR RESUME NEXT', f'ON ERROR GOTO {handler}'])])
         body = [l for c in chunks for l in c]
         lines = head + body
         tail = []
-        if self.gosubs:
+        if handler:
+            self.gosubs = self.gosubs  # handler goes after END, like GOSUB targets
+            tail_handler = [f'{handler}:', 'PRINT "error"; ERR', rng.choice(['RESUME NEXT', 'RESUME NEXT', 'END'])]
+        else:
+            tail_handler = []
+        if self.gosubs or tail_handler:
             lines.append('END')
             for l, b in self.gosubs:
                 tail += [f'{l}:'] + b + ['RETURN']
+            tail += tail_handler
         lines += tail
         for sd in self.sub_defs:
             lines += [''] + sd['text']
